@@ -253,7 +253,7 @@ pub fn run(p: &Params, rep: &mut Report) {
     // long subjects (1k-20k characters, two letters, planted patterns): same definitions, bigger indices
     let nlong = p.size(40, 400);
     for _ in 0..nlong {
-        let la = 1000 + rng.usize(19_000);
+        let la = if rng.chance(1, 10) { 65_530 + rng.usize(12) } else { 1000 + rng.usize(19_000) };
         let mut a: Vec<u32> = (0..la).map(|_| if rng.chance(1, 9) { 0x62 } else { 0x61 }).collect();
         let lb = if rng.chance(1, 2) { 1 + rng.usize(6) } else { 16 + rng.usize(33) };
         let st = rng.usize(la - lb);
